@@ -635,7 +635,7 @@ func (t *UpdateTran) update(th *core.Thread, table string, oldoff uint64, newrec
 		}()
 		for i := range ts.Indexes {
 			if oldkeys[i] != newkeys[i] {
-				t.fkeyUpdateCascade(th, ts, i, newrec, oldkeys[i])
+				t.fkeyUpdateCascade(th, ts, i, newrec, oldkeys[i], oldoff)
 			}
 		}
 		for i := range ts.Indexes {
@@ -656,7 +656,7 @@ func (t *UpdateTran) update(th *core.Thread, table string, oldoff uint64, newrec
 }
 
 func (t *UpdateTran) fkeyUpdateCascade(th *core.Thread, ts *meta.Schema, i int,
-	rec core.Record, key string) { // rec is old, key is new
+	rec core.Record, key string, self uint64) { // rec is old, key is new
 	if key == "" {
 		return // empty foreign keys do not reference anything
 	}
@@ -675,6 +675,11 @@ func (t *UpdateTran) fkeyUpdateCascade(th *core.Thread, ts *meta.Schema, i int,
 		ft := fkeyTran{t}
 		for iter.Next(ft); !iter.Eof(); iter.Next(ft) {
 			off := iter.CurOff()
+			if off == self {
+				// a row that references itself is the row being updated,
+				// it gets its new values from the update itself
+				continue
+			}
 			oldrec := t.GetRecord(off)
 			rb := core.RecordBuilder{}
 			for i, col2 := range ts2.Columns {
